@@ -536,7 +536,7 @@ impl Property for C11 {
     }
 
     fn rule(&self) -> String {
-        "trees: random tir::Tx values (every Expression / Param / BuiltInOp / CompilerOp / Coerce / ScriptSource-free block variant, depth <= 6, ints over the i128 boundary set, usize::MAX constructors, byte strings 0..3000, UTxO sets with datums); lowered: every tx of every example program and of generated programs; hostile: 12 mutation kinds of valid encodings (random, bit flips, truncation, splice, length lies (at random offsets and at the head of every string / array / map of the encoding, located with the independent CBOR reader), nesting bombs to 1e5, valid deep lists to 1000, 11 kinds of expression wrapper nested 50..100000 deep in a typed position (raw bytes) - all nested inputs decoded on a 2 MiB thread, and once more by an unoptimised (dev-profile) probe binary on a 2 MiB thread, overwrites, duplications, repeated entries in the encoding's own maps (incl. asset maps whose amounts sit at the ends of the i128 range), bad utf-8, wrong major types, foreign values); versions: fixed list + random near-misses of 'v1beta0' + names of 31..70000 bytes mixing 1/2/3/4-byte characters with byte lengths on and around powers of two, direct and through TirEnvelope. Non-trivial: a tree whose serialisation uses >= 6 distinct IR variants / a distinct hostile byte string / a distinct version string.".into()
+        "trees: random tir::Tx values (every Expression / Param / BuiltInOp / CompilerOp / Coerce / ScriptSource-free block variant, depth <= 6, ints over the i128 boundary set, usize::MAX constructors, byte strings 0..3000, UTxO sets with datums); lowered: every tx of every example program and of generated programs; long-chains: programs whose amount / datum is a flat chain of 10..400 terms (+, -), lowered and sent through the wire format; hostile: 12 mutation kinds of valid encodings (random, bit flips, truncation, splice, length lies (at random offsets and at the head of every string / array / map of the encoding, located with the independent CBOR reader), nesting bombs to 1e5, valid deep lists to 1000, 11 kinds of expression wrapper nested 50..100000 deep in a typed position (raw bytes) - all nested inputs decoded on a 2 MiB thread, and once more by an unoptimised (dev-profile) probe binary on a 2 MiB thread, overwrites, duplications, repeated entries in the encoding's own maps (incl. asset maps whose amounts sit at the ends of the i128 range), bad utf-8, wrong major types, foreign values); versions: fixed list + random near-misses of 'v1beta0' + names of 31..70000 bytes mixing 1/2/3/4-byte characters with byte lengths on and around powers of two, direct and through TirEnvelope. Non-trivial: a tree whose serialisation uses >= 6 distinct IR variants / a distinct hostile byte string / a distinct version string.".into()
     }
 
     fn assumptions(&self) -> Vec<String> {
@@ -558,6 +558,7 @@ impl Property for C11 {
         let mut v = vec![
             Phase::new("trees", trees, Profile::Release),
             Phase::new("examples", 80, Profile::Release),
+            Phase::new("long-chains", 48, Profile::Release).exhaustive(),
             Phase::new("lowered", lowered, Profile::Release),
             Phase::new("hostile", hostile, Profile::Checked),
             Phase::new("versions", VERSION_STRINGS.len() as u64 + 800, Profile::Release).exhaustive(),
@@ -653,6 +654,37 @@ impl Property for C11 {
                         let s = format!("{t:?}");
                         json!({"phase": "trees", "tx_debug_prefix": s.chars().take(600).collect::<String>(), "encoded_len": to_bytes(&t).0.len()})
                     });
+                }
+            }
+            "long-chains" => {
+                // source programs whose expressions are long flat chains: what lowering produces has to survive
+                // the wire format whatever its depth
+                let lens = [10usize, 40, 70, 80, 84, 85, 86, 90, 100, 128, 200, 400];
+                let n = lens[(idx as usize) % lens.len()];
+                let shape = (idx as usize / lens.len()) % 4;
+                let chain = |head: &str, op: &str, term: &str| format!("{head}{}", format!(" {op} {term}").repeat(n - 1));
+                let (amount, datum) = match shape {
+                    0 => (chain("Ada(q)", "+", "Ada(q)"), "q".to_string()),
+                    1 => (chain("s", "-", "Ada(1)"), "q".to_string()),
+                    2 => ("Ada(q)".to_string(), chain("q", "+", "1")),
+                    _ => ("Ada(q)".to_string(), chain("q", "-", "q")),
+                };
+                let src = format!("party A;\ntx t(q: Int) {{\n  input s {{ from: A, min_amount: Ada(q), }}\n  output {{ to: A, amount: {amount}, datum: {datum}, }}\n}}\n");
+                ctx.count(&format!("long-chains/terms-{n}"));
+                match crate::pipeline::front(&src, "t") {
+                    Ok(t) => {
+                        // a decoder that refuses what the encoder wrote, for depth alone, has its own signature
+                        let (bytes, version) = to_bytes(&t);
+                        match crate::panics::catch(|| from_bytes(&bytes, version)) {
+                            Ok(Err(e)) if e.to_string().contains("RecursionLimitExceeded") => {
+                                ctx.eval();
+                                ctx.violation("roundtrip:lowered-ir-deeper-than-the-decoder-accepts", json!({"terms": n, "shape": shape, "encoded_len": bytes.len(), "error": e.to_string(), "source_prefix": src.chars().take(200).collect::<String>()}));
+                            }
+                            _ => check_roundtrip(ctx, &t, "long-chain"),
+                        }
+                        ctx.nontrivial(crate::rng::fnv64(src.as_bytes()));
+                    }
+                    Err(_) => ctx.count("long-chains/front-rejected"),
                 }
             }
             "examples" => {
